@@ -255,7 +255,7 @@ def same_object(p, q):
 # --------------------------------------------------------------------------
 
 class Event:
-    __slots__ = ('fn', 'block', 'idx', 'k', 'e', 'ln', 'name', 't', 'raw')
+    __slots__ = ('fn', 'block', 'idx', 'k', 'e', 'ln', 'name', 't', 'raw', 'node')
 
     def __init__(self, fn, block, idx, raw):
         self.fn = fn
@@ -263,6 +263,7 @@ class Event:
         self.idx = idx
         self.raw = raw
         self.k = raw['k']
+        self.node = raw.get('node')
         self.e = raw.get('e')
         self.ln = raw.get('ln', 0)
         self.name = raw.get('name')
@@ -385,6 +386,7 @@ class Function:
         self._pdom = None
         self._reach = None
         self._aliases = None
+        self._sub_events = None
 
     def __repr__(self):
         return '<fn %s %s:%d>' % (self.name, self.file, self.line)
@@ -411,6 +413,14 @@ class Function:
 
     def returns(self):
         return list(self.events('ret'))
+
+    def sub_event(self, node_id):
+        """The position marker event of a subscript node (where it is evaluated)."""
+        if getattr(self, '_sub_events', None) is None:
+            self._sub_events = {}
+            for ev in self.events('sub'):
+                self._sub_events[ev.node] = ev
+        return self._sub_events.get(node_id)
 
     def event_by_expr_id(self, eid):
         for ev in self.events():
